@@ -257,6 +257,9 @@ def main(argv):
                     n_bounded_ob += 1
                 else:
                     n_ob += 1
+                if any(m and m in o["name"] for m in os.environ.get("PVC_MAINTENANCE_IGNORE", "").split(",")):
+                    # maintenance runs only (tools_mutate.py against a base that predates a repair): never set by a registered command
+                    continue
                 violations.append((u, o))
 
     # native hooks: bounded native stand-ins and known-finding probes
